@@ -81,6 +81,28 @@ func init() {
 						mm = &Mismatch{Step: i, Kind: "overrun", Got: "bytes outside the slices were written by Seal", Exp: "untouched"}
 					}
 				}
+				if mm == nil {
+					// the same call with a roomy destination (a frame buffer with bytes of the caller behind the place of the
+					// result): Seal appends, so everything behind the slice it returns is still the caller's
+					const room = 48
+					var full, out2 []byte
+					if st.Bool("inplace") {
+						buf := gslice(keepPT(lastPT), a.Overhead()+room, &frees)
+						full = buf[:cap(buf)]
+						fillEE(full[len(buf):])
+						out2 = a.Seal(buf[:0], nonce, buf, aad)
+					} else {
+						dst := gslice(prefix, len(lastPT)+a.Overhead()+room, &frees)
+						full = dst[:cap(dst)]
+						fillEE(full[len(dst):])
+						out2 = a.Seal(dst, nonce, gslice(lastPT, 0, &frees), aad)
+					}
+					if mm = Diff(i, out2, st.Hex("exp")); mm != nil {
+						mm.Note = "destination with spare capacity"
+					} else if tail := full[len(out2):]; !allEE(tail) {
+						mm = &Mismatch{Step: i, Kind: "overrun", Got: "bytes behind the returned slice (spare capacity of dst): " + hx(tail), Exp: "untouched (0xEE fill)", Note: "Seal only appends"}
+					}
+				}
 				nonce, aad = bytes.Clone(nonce), bytes.Clone(aad)
 				for _, g := range frees {
 					g.Free()
@@ -161,6 +183,23 @@ func init() {
 		}
 		return nil
 	})
+}
+
+func keepPT(b []byte) []byte { return b }
+
+func fillEE(b []byte) {
+	for i := range b {
+		b[i] = 0xEE
+	}
+}
+
+func allEE(b []byte) bool {
+	for _, v := range b {
+		if v != 0xEE {
+			return false
+		}
+	}
+	return true
 }
 
 func boolStr(b bool) string {
